@@ -18,10 +18,12 @@ from vgi_rpc.utils import ArrowSerializableDataclass
 
 META = {
     "engine": "httpgate",
-    "text": "TLC enumerates the complete request-class product (route {unary,init,exchange} x method {known,failing,"
-            "unknown,kind-mismatched} x body {valid,corrupted,truncated,empty,wrong-metadata,bad-params,bad-version} x "
-            "content type {correct,wrong,missing} x content encoding {none,supported,unsupported,corrupt} x token "
-            "{valid,tampered,missing} x auth {none,accept,reject} x size {ok,over}; ~10k consistent rows) with the set "
+    "text": "TLC enumerates the complete request-class product (route {unary,init,exchange,upload-url} x method {known,failing,"
+            "unknown,kind-mismatched,__describe__} x body {valid,corrupted,truncated,empty,wrong-metadata,bad-params,"
+            "bad-version} x parameter kind {scalar,dataclass(nested IPC),enum,dict,set} x parameter value {ok,null,unknown "
+            "member,nested corrupt/truncated/empty/wrong-shape} x content type {correct,wrong,missing} x content encoding "
+            "{none,supported,unsupported,corrupt} x token {valid,tampered,missing,expired,foreign method,foreign principal,"
+            "foreign call} x auth {none,accept,reject} x size {ok,over on the wire,over after decoding}; 8,616 consistent rows) with the set "
             "of admissible statuses per row (set-valued for coinciding faults) and the table-sanity invariants (no 5xx "
             "row, Arrow body except 401/415); every row is concretised into real requests against real apps built by "
             "make_wsgi_app (producer and exchange streams, real state tokens, zstd/gzip bodies, several truncation "
